@@ -119,6 +119,8 @@ def classify(fail):
 
 
 def run(tier, v):
+    import corpuscheck
+    corpuscheck.check(v, "C10", tier)
     pool = vh.Pool()
     spaces = [("core product (one representative per grammar path in every dimension)", core_product()),
               ("all pairs over the full alphabets x style", pairs(2)),
